@@ -22,105 +22,128 @@ func c09Close(x *mc.Cell, r Role) {
 		for _, withErr := range []bool{false, true} {
 			for _, sendFails := range []bool{false, true} {
 				for _, closeFails := range []bool{false, true} {
-					state, withErr, sendFails, closeFails := state, withErr, sendFails, closeFails
-					rep := map[string]any{"role": RoleNames[r], "state": state, "with_error": withErr, "send_fails": sendFails, "transport_close_fails": closeFails}
-					run(x, "C09", Opts{Types: []string{"T"}}, rep, func(n *Node) {
-						chid := Setup(n, r, state)
-						sanityState(n, r, state, chid)
-						if sendFails {
-							n.Net.FailSend = func(int, peer.ID, datatransfer.Message) error { return doubles.ErrSend }
+					for _, scoped := range []bool{false, true} {
+						if scoped && (withErr || sendFails) {
+							continue // close-with-error sends the notice within the call; a failing send needs no slow network
 						}
-						if closeFails {
-							n.Tr.Fail = func(c doubles.TCall) error {
-								if c.Op == "close" {
-									return errors.New("transport close failed")
-								}
-								return nil
+						state, withErr, sendFails, closeFails, scoped := state, withErr, sendFails, closeFails, scoped
+						rep := map[string]any{"role": RoleNames[r], "state": state, "with_error": withErr, "send_fails": sendFails, "transport_close_fails": closeFails, "caller_context_ends_after_return_and_network_is_slow": scoped}
+						run(x, "C09", Opts{Types: []string{"T"}}, rep, func(n *Node) {
+							chid := Setup(n, r, state)
+							sanityState(n, r, state, chid)
+							if sendFails {
+								n.Net.FailSend = func(int, peer.ID, datatransfer.Message) error { return doubles.ErrSend }
 							}
-						}
-						unprot0 := len(n.Net.Unprotects)
-						mk := n.Mark()
-						var cerr error
-						hang, cr := mc.Call(func() {
+							if closeFails {
+								n.Tr.Fail = func(c doubles.TCall) error {
+									if c.Op == "close" {
+										return errors.New("transport close failed")
+									}
+									return nil
+								}
+							}
+							unprot0 := len(n.Net.Unprotects)
+							mk := n.Mark()
+							var cerr error
+							// scoped: the caller's context is request-scoped - it ends as soon as the close call has returned -
+							// and the network needs a while (it delivers only after that)
+							cctx, ccancel := context.WithCancel(context.Background())
+							defer ccancel()
+							var slow chan struct{}
+							if scoped {
+								slow = make(chan struct{})
+								n.Net.HoldSend = slow
+							}
+							hang, cr := mc.Call(func() {
+								if withErr {
+									cerr = n.Mgr.(interface {
+										CloseDataTransferChannelWithError(context.Context, datatransfer.ChannelID, error) error
+									}).CloseDataTransferChannelWithError(context.Background(), chid, errors.New("monitor gave up"))
+								} else {
+									cerr = n.Mgr.CloseDataTransferChannel(cctx, chid)
+								}
+							})
+							if scoped && !hang {
+								ccancel()
+								mc.Wait()
+								n.Net.HoldSend = nil
+								close(slow)
+							}
+							if hang {
+								x.Violate("C09", "L2;close-hangs;state="+state, "closing the channel did not return", rep)
+								x.Fatal = true
+								return
+							}
+							if cr.Panic != nil {
+								x.Violate("C09", "panic;site="+panicSite(cr.Stack), fmt.Sprintf("%v\n%s", cr.Panic, trimStack(cr.Stack)), rep)
+								return
+							}
+							mc.Wait()
+							d := n.Since(mk)
+							after, _ := n.Vec(chid)
+							x.Premise++
+							ctx := fmt.Sprintf("role=%s state=%s withErr=%v sendFails=%v closeFails=%v err=%v\n  %s", RoleNames[r], state, withErr, sendFails, closeFails, cerr, d)
+							sig := func(s string) string {
+								return fmt.Sprintf("L2;close;%s;role=%s;state=%s;with-error=%v;send-fails=%v", s, RoleNames[r], state, withErr, sendFails)
+							}
+							x.Outcome(fmt.Sprintf("%s|%s|%v|%v|%s", RoleNames[r], state, withErr, sendFails, datatransfer.Statuses[after.Status]))
+							want := datatransfer.Cancelled
 							if withErr {
-								cerr = n.Mgr.(interface {
-									CloseDataTransferChannelWithError(context.Context, datatransfer.ChannelID, error) error
-								}).CloseDataTransferChannelWithError(context.Background(), chid, errors.New("monitor gave up"))
+								want = datatransfer.Failed
+							}
+							if after.Status != want {
+								x.Violate("C09", sig("ends-in="+datatransfer.Statuses[after.Status]), ctx, rep)
+							}
+							if withErr && !strings.Contains(after.Message, "monitor gave up") {
+								x.Violate("C09", sig("error-message-lost"), ctx, rep)
+							}
+							cancels, wrongKind, wrongPeer := 0, 0, 0
+							for _, s := range d.Sends {
+								if s.Msg != nil && s.Msg.IsCancel() && s.Msg.TransferID() == chid.ID {
+									if scoped && s.Err != nil {
+										continue // abandoned on the way: the counterparty never got it
+									}
+									cancels++
+									if s.Msg.IsRequest() != r.Created() {
+										wrongKind++
+									}
+									if s.To != doubles.PeerB {
+										wrongPeer++
+									}
+								}
+							}
+							if cancels != 1 || wrongKind != 0 || wrongPeer != 0 {
+								x.Violate("C09", sig(fmt.Sprintf("cancel-messages=%d;wrong-kind=%d;wrong-peer=%d", cancels, wrongKind, wrongPeer)), "the counterparty is notified with exactly one cancel message of the right kind: "+ctx, rep)
+							}
+							closes, cleanups := 0, 0
+							for _, tc := range d.TCalls {
+								if tc.Chid == chid && tc.Op == "close" {
+									closes++
+								}
+								if tc.Chid == chid && tc.Op == "cleanup" {
+									cleanups++
+								}
+							}
+							if closes < 1 {
+								x.Violate("C09", sig("transport-not-closed"), ctx, rep)
+							}
+							un := len(n.Net.Unprotects) - unprot0
+							if sendFails {
+								// the failed cancel message is reported as a network-error notice that may land inside the
+								// cleanup window and re-enter the cleanup status (weak form of DESIGN 5/C09): count >= 1, equal
+								if cleanups < 1 || cleanups != un {
+									x.Violate("C09", sig(fmt.Sprintf("transport-cleanups=%d;unprotects=%d", cleanups, un)), "transport release and un-protect must happen (the same number of times) for the ending: "+ctx, rep)
+								}
 							} else {
-								cerr = n.Mgr.CloseDataTransferChannel(context.Background(), chid)
+								if cleanups != 1 {
+									x.Violate("C09", sig(fmt.Sprintf("transport-cleanups=%d", cleanups)), "transport resources are released exactly once per ending: "+ctx, rep)
+								}
+								if un != 1 {
+									x.Violate("C09", sig(fmt.Sprintf("unprotects=%d", un)), "the peer connection is un-protected exactly once per ending: "+ctx, rep)
+								}
 							}
 						})
-						if hang {
-							x.Violate("C09", "L2;close-hangs;state="+state, "closing the channel did not return", rep)
-							x.Fatal = true
-							return
-						}
-						if cr.Panic != nil {
-							x.Violate("C09", "panic;site="+panicSite(cr.Stack), fmt.Sprintf("%v\n%s", cr.Panic, trimStack(cr.Stack)), rep)
-							return
-						}
-						mc.Wait()
-						d := n.Since(mk)
-						after, _ := n.Vec(chid)
-						x.Premise++
-						ctx := fmt.Sprintf("role=%s state=%s withErr=%v sendFails=%v closeFails=%v err=%v\n  %s", RoleNames[r], state, withErr, sendFails, closeFails, cerr, d)
-						sig := func(s string) string {
-							return fmt.Sprintf("L2;close;%s;role=%s;state=%s;with-error=%v;send-fails=%v", s, RoleNames[r], state, withErr, sendFails)
-						}
-						x.Outcome(fmt.Sprintf("%s|%s|%v|%v|%s", RoleNames[r], state, withErr, sendFails, datatransfer.Statuses[after.Status]))
-						want := datatransfer.Cancelled
-						if withErr {
-							want = datatransfer.Failed
-						}
-						if after.Status != want {
-							x.Violate("C09", sig("ends-in="+datatransfer.Statuses[after.Status]), ctx, rep)
-						}
-						if withErr && !strings.Contains(after.Message, "monitor gave up") {
-							x.Violate("C09", sig("error-message-lost"), ctx, rep)
-						}
-						cancels, wrongKind, wrongPeer := 0, 0, 0
-						for _, s := range d.Sends {
-							if s.Msg != nil && s.Msg.IsCancel() && s.Msg.TransferID() == chid.ID {
-								cancels++
-								if s.Msg.IsRequest() != r.Created() {
-									wrongKind++
-								}
-								if s.To != doubles.PeerB {
-									wrongPeer++
-								}
-							}
-						}
-						if cancels != 1 || wrongKind != 0 || wrongPeer != 0 {
-							x.Violate("C09", sig(fmt.Sprintf("cancel-messages=%d;wrong-kind=%d;wrong-peer=%d", cancels, wrongKind, wrongPeer)), "the counterparty is notified with exactly one cancel message of the right kind: "+ctx, rep)
-						}
-						closes, cleanups := 0, 0
-						for _, tc := range d.TCalls {
-							if tc.Chid == chid && tc.Op == "close" {
-								closes++
-							}
-							if tc.Chid == chid && tc.Op == "cleanup" {
-								cleanups++
-							}
-						}
-						if closes < 1 {
-							x.Violate("C09", sig("transport-not-closed"), ctx, rep)
-						}
-						un := len(n.Net.Unprotects) - unprot0
-						if sendFails {
-							// the failed cancel message is reported as a network-error notice that may land inside the
-							// cleanup window and re-enter the cleanup status (weak form of DESIGN 5/C09): count >= 1, equal
-							if cleanups < 1 || cleanups != un {
-								x.Violate("C09", sig(fmt.Sprintf("transport-cleanups=%d;unprotects=%d", cleanups, un)), "transport release and un-protect must happen (the same number of times) for the ending: "+ctx, rep)
-							}
-						} else {
-							if cleanups != 1 {
-								x.Violate("C09", sig(fmt.Sprintf("transport-cleanups=%d", cleanups)), "transport resources are released exactly once per ending: "+ctx, rep)
-							}
-							if un != 1 {
-								x.Violate("C09", sig(fmt.Sprintf("unprotects=%d", un)), "the peer connection is un-protected exactly once per ending: "+ctx, rep)
-							}
-						}
-					})
+					}
 				}
 			}
 		}
